@@ -34,6 +34,8 @@ def streams_for(pid, tier, seed):
         S.append({"gen": "subst", "trees": "core", "widths": [3] if q else [1, 2, 3], "det": True, "full": not q,
                   "maps": 2 if q else 4, "stride": 16 if q else 1})
         S.append({"gen": "subst", "n": 8 if q else 500, "depth": 4, "full": True, "maps": 3})
+        S.append({"gen": "canonchain", "chains": "core", "W": 3, "det": True})
+        S.append({"gen": "canonchain", "n": 15 if q else 600})
         # (d) ite_cases / reverse_ite_cases / ite_dict
         S.append({"gen": "cases", "cases": "core", "widths": [3] if q else [2, 3], "det": True, "stride": 2 if q else 1})
         S.append({"gen": "cases", "n": 30 if q else 1500})
@@ -56,6 +58,11 @@ def streams_for(pid, tier, seed):
         S.append({"gen": "simplify", "src": "rand", "n": 60 if q else 1500, "depth": 5, "budget_s": 8})
         S.append({"gen": "z3abs", "widths": [1, 2, 3, 4], "det": True})
         S.append({"gen": "fpstr", "det": True})
+        # the same round trips from a NON-MAIN thread (BackendZ3 keeps a Z3 context and its tactics per thread)
+        S.append({"gen": "simplify", "src": "exh", "W": 2, "depth": 1, "det": True, "thread": True, "stride": 3 if q else 1})
+        S.append({"gen": "simplify", "src": "trees", "trees": "core", "widths": [3], "det": True, "thread": True,
+                  "stride": 16 if q else 2})
+        S.append({"gen": "fpstr", "det": True, "thread": True})
     return S
 
 
@@ -87,6 +94,10 @@ def input_sig(ev, clause):
         key = [k, ev["u"], ev["e"], ev["os"], ev["ns"]]
     elif k == "canon":
         key = [k, ev["w"]]
+    elif k == "canonchain":
+        key = [k, ev["ws"]]
+    elif k == "fprt":
+        key = [k, ev["u"], ev["desc"]]
     elif k == "alpha":
         key = [k, ev["w"], ev["r"]]
     elif k == "cases":
@@ -263,11 +274,16 @@ def load_findings(pid):
     """known findings of the property: known_findings.json plus the entries proposed by this engine
     (findings/util-proposed-findings.json) until the maintainer merges them"""
     out = {f["id"]: f for f in C.load_findings(pid)}
+    merged = set()          # ids the maintainer already took over (in any status, e.g. "fixed: <commit>")
+    kp = os.path.join(C.VERIF, "known_findings.json")
+    if os.path.exists(kp):
+        with open(kp) as fh:
+            merged = {f.get("id") for f in json.load(fh).get("findings", [])}
     p = os.path.join(C.VERIF, "findings", "util-proposed-findings.json")
     if os.path.exists(p):
         with open(p) as fh:
             for f in json.load(fh).get("findings", []):
-                if f.get("property") == pid and not str(f.get("status", "")).startswith("fixed"):
+                if f.get("property") == pid and f["id"] not in merged and not str(f.get("status", "")).startswith("fixed"):
                     out.setdefault(f["id"], f)
     return list(out.values())
 
@@ -276,7 +292,7 @@ def payload(pid, ev, clause):
     p = {"property": pid, "clause": clause, "kind": ev["k"], "utility": ev.get("u", ""), "outcome": ev["out"],
          "deterministic_stream": ev.get("det", False)}
     for f in ("w", "r", "e", "os", "ns", "same", "map", "ans", "cases", "dflt", "i", "kv", "pairs", "bits", "rs", "index",
-              "size", "zop", "ints", "args", "via", "f", "desc", "cls"):
+              "size", "zop", "ints", "args", "via", "f", "desc", "cls", "ws"):
         if f in ev:
             p[f] = ev[f]
     if "kind" in ev:
